@@ -277,6 +277,11 @@ impl<'d> Interp<'d> {
             }
             Expr::InSubquery { e, q, negated } => {
                 let v = self.eval(e, env);
+                if *negated && self.quirks.not_in_null_check_ignores_correlation {
+                    if let Some(r) = self.quirk_not_in(&v, q, env) {
+                        return r;
+                    }
+                }
                 let rel = self.eval_subquery(q, env);
                 if rel.cols.len() != 1 {
                     self.unsupported("IN subquery with != 1 column".into());
